@@ -40,6 +40,8 @@ def disc (s : Stack) : TStore SvcKey × List (Bool × SvcKey × Addr) := (s.foun
 @[simp] theorem disc_with_flushLog (s : Stack) (x : List (Dest × List SDEntry)) : disc { s with flushLog := x } = disc s := rfl
 @[simp] theorem disc_with_refreshLog (s : Stack) (x : List (Addr × SvcKey × Nat × Nat)) : disc { s with refreshLog := x } = disc s := rfl
 @[simp] theorem disc_with_armLog (s : Stack) (x : List (Cb × Nat × Nat)) : disc { s with armLog := x } = disc s := rfl
+@[simp] theorem disc_with_subMarks (s : Stack) (x : List (Option Nat × Nat)) : disc { s with subMarks := x } = disc s := rfl
+@[simp] theorem disc_markRound (s : Stack) (n : Nat) : disc (s.markRound n) = disc s := rfl
 @[simp] theorem disc_with_subLog (s : Stack) (x : List (Addr × Nat × List Eventgroup)) : disc { s with subLog := x } = disc s := rfl
 @[simp] theorem disc_with_findLog (s : Stack) (x : List (Nat × Nat)) : disc { s with findLog := x } = disc s := rfl
 @[simp] theorem disc_with_subDup (s : Stack) (x : Bool) : disc { s with subDup := x } = disc s := rfl
